@@ -11,4 +11,4 @@ CONF = {
     'shard_timeout': 900,
 }
 
-CHECK = None
+CHECK = {'text': 'Theorems for every cache content, OCI spec and request list: if some requested name does not resolve (by the declarative rule: unknown, malformed, conflict-removed ...) the result is exactly the misses in request order with repetitions, an error, and the OCI spec as handed in (inject_unresolved via inject_refines_spec); a nil OCI spec is refused with all names (inject_nil). Tied to pkg/cdi by requests mixing resolvable, unknown, malformed, shadowed and conflict-removed names with repetitions on populated and nil OCI specs; the OCI spec is compared before/after through its full projection + JSON image of the untouched rest.', 'note': 'Trusted: as C02. No axioms.', 'technique': 'Coq proof (refinement of the request walk to the declarative filter) + differential correspondence via vm_compute'}
